@@ -190,6 +190,12 @@ class DataGen:
 
     def key(self):
         if self.rnd.random() < self.exotic:
+            if self.rnd.random() < 0.35:
+                # any key from the documented alphabet: printable ASCII without '@' (and '/')
+                alpha = [chr(c) for c in range(33, 127) if chr(c) not in "@/"]
+                k = "".join(self.rnd.choice(alpha) for _ in range(self.rnd.choice([1, 1, 2, 3])))
+                if k not in (".",) and not k.startswith("metador_"):
+                    return k
             return self.rnd.choice(EXOTIC_KEYS)
         return self.rnd.choice(PLAIN_KEYS)
 
